@@ -175,7 +175,7 @@ func init() {
 			if v, ok := params["max_targets"]; ok {
 				mt, _ = strconv.Atoi(v)
 			}
-			return &wbuild{g: genCfg{MaxTargets: mt, Features: map[string]bool{}}, mode: params["mode"], focus: params["focus"]}
+			return &wbuild{g: genCfg{MaxTargets: mt, Features: map[string]bool{}}, mode: params["mode"], focus: params["focus"], load: params["load"]}
 		}
 	}
 }
@@ -210,6 +210,13 @@ func (w *wbuild) Drive(s *simrt.Sched, out *RunResult) {
 			feats = append(feats, f)
 		}
 	}
+	if w.mode == "twin" {
+		// the two machines share the external world: commands must not change it, and
+		// cancellation (fail-fast) makes the executed sets legitimately differ
+		for _, f := range []string{"checks", "extfail", "nocache-build"} {
+			delete(w.g.Features, f)
+		}
+	}
 	u := genUniverse(c, w.g)
 	cs := &wbCase{Mode: w.mode, Features: feats, Universe: u.Clone()}
 	out.Decoded = cs
@@ -222,14 +229,15 @@ func (w *wbuild) Drive(s *simrt.Sched, out *RunResult) {
 		w.setupFaults(m)
 	}
 	base := InvOpts{Workers: 1 + c.Choose(4, "workers"), LoadOutputs: "all", Hash: pick(c, "hash", "xxh3", "sha256"), EnableCache: true, Platform: "linux/amd64"}
-	if w.mode == "minimal" {
+	if w.mode == "minimal" || w.load == "minimal" {
 		base.LoadOutputs = "minimal"
 	}
 	nops := 2 + c.Choose(5, "nops")
 	var snapshots []*Universe
 	shapeParts := []string{fmt.Sprint(len(u.Specs), len(u.Aliases), feats)}
 	builds := 0
-	doBuild := func(req BuildReq, opts InvOpts, note string) {
+	var lastRes *InvResult
+	doBuild1 := func(req BuildReq, opts InvOpts, note string) {
 		ext0 := map[string]string{}
 		for k, v := range w.U.Ext {
 			ext0[k] = v
@@ -311,10 +319,40 @@ func (w *wbuild) Drive(s *simrt.Sched, out *RunResult) {
 		if res.Cause != "return" && res.Cause != "exit" {
 			h.Note = strings.TrimSpace(h.Note + " cause=" + res.Cause)
 		}
+		if w.mode == "twin" {
+			h.Note = strings.TrimSpace(h.Note + " machine=" + m.Name)
+		}
+		lastRes = res
 		cs.History = append(cs.History, h)
 		w.checkBuild(res, req, opts, cm, ext0)
 		w.auditCache(m, fmt.Sprintf("after invocation %d", res.N))
 		shapeParts = append(shapeParts, fmt.Sprint(req.Patterns, len(h.Execd), res.ExitCode))
+	}
+	// twin worlds (C15): machine B runs the same history with load_outputs=minimal
+	var mB *Machine
+	var cmB *cacheModel
+	if w.mode == "twin" {
+		mB = w.newMachine("B")
+		w.syncWorkspace(mB, u)
+		cmB = newCacheModel()
+	}
+	doBuild := func(req BuildReq, opts InvOpts, note string) {
+		doBuild1(req, opts, note)
+		if mB == nil || len(s.Violations) > 0 {
+			return
+		}
+		resA := lastRes
+		mA, cmA := m, cm
+		m, cm = mB, cmB
+		optsB := opts
+		optsB.LoadOutputs = "minimal"
+		doBuild1(req, optsB, note)
+		resB := lastRes
+		m, cm = mA, cmA
+		w.mu.Lock()
+		w.M = mA
+		w.mu.Unlock()
+		w.compareTwins(resA, resB, req, mA, mB)
 	}
 	for i := 0; i < nops && len(s.Violations) == 0; i++ {
 		kinds := []string{"edit", "build", "edit", "build"}
@@ -342,12 +380,15 @@ func (w *wbuild) Drive(s *simrt.Sched, out *RunResult) {
 			w.U = nu
 			w.mu.Unlock()
 			w.syncWorkspace(m, nu)
+			if mB != nil {
+				w.syncWorkspace(mB, nu)
+			}
 			cs.History = append(cs.History, HistOp{Op: "edit", Edit: &ed})
 			shapeParts = append(shapeParts, ed.Op)
 		case "build":
 			opts := base
 			opts.Workers = 1 + c.Choose(4, "workers")
-			if w.g.Features["fail"] && chance(c, 1, 4, "failfast") {
+			if w.g.Features["fail"] && w.mode != "twin" && chance(c, 1, 4, "failfast") {
 				opts.FailFast = true
 			}
 			if w.g.Features["nocache-build"] && chance(c, 1, 6, "disable-cache") {
@@ -356,6 +397,9 @@ func (w *wbuild) Drive(s *simrt.Sched, out *RunResult) {
 			doBuild(genBuildReq(c, w.U, w.g), opts, "")
 		case "wsmut":
 			note := w.mutateWorkspace(m)
+			if mB != nil {
+				w.replayMutation(mB)
+			}
 			cs.History = append(cs.History, HistOp{Op: "wsmut", Note: note})
 			shapeParts = append(shapeParts, "wsmut")
 		case "taint":
@@ -366,6 +410,13 @@ func (w *wbuild) Drive(s *simrt.Sched, out *RunResult) {
 				w.fs.fired = 0
 			}
 			res := w.invoke(m, req, base, nil)
+			if mB != nil {
+				w.invoke(mB, req, base, nil)
+				cmB.taint[l] = true
+				if !platformOK(w.U.Specs[l], base.Platform, false) {
+					cmB.taintUnc[l] = true
+				}
+			}
 			cs.History = append(cs.History, HistOp{Op: "taint", Req: &req, Exit: &res.ExitCode})
 			if w.fs != nil && w.fs.fired > 0 {
 				// a fault hit the taint command: the taint may or may not have been recorded
@@ -435,15 +486,36 @@ func (w *wbuild) mutateWorkspace(m *Machine) string {
 	sp := w.U.Specs[l]
 	o := sp.Outs[c.Choose(len(sp.Outs), "wsmut-out")]
 	abs := filepath.Join(m.WS, sp.Pkg, o.Path)
+	w.lastMut = func(m2 *Machine) (string, OutSpec, string) { return filepath.Join(m2.WS, sp.Pkg, o.Path), o, filepath.Join(m2.WS, sp.Pkg) }
 	kind := pick(c, "wsmut-kind", "delete", "delete-parent", "modify", "truncate", "extra-file", "swap-kind", "modify-longer")
 	if kind == "swap-kind" && o.Kind != "dir" {
 		kind = "delete" // the property names "a file where a directory should be", not the reverse
 	}
+	w.lastMutKind = kind
+	applyMutation(kind, abs, o, filepath.Join(m.WS, sp.Pkg))
+	return kind + " " + l + " " + o.Path
+}
+
+// replayMutation applies the last workspace mutation to another machine's checkout.
+func (w *wbuild) replayMutation(m2 *Machine) {
+	if w.lastMut == nil || (w.lastMutKind != "delete" && w.lastMutKind != "delete-parent") {
+		// content tampering is not replayed on the minimal machine: grog does not load outputs
+		// there, so the tampered bytes would (rightly) stay and are not "materialised" outputs
+		return
+	}
+	abs, o, pkgDir := w.lastMut(m2)
+	if _, err := os.Lstat(abs); err != nil {
+		return // not materialised on this machine
+	}
+	applyMutation(w.lastMutKind, abs, o, pkgDir)
+}
+
+func applyMutation(kind, abs string, o OutSpec, pkgDir string) {
 	switch kind {
 	case "delete":
 		os.RemoveAll(abs)
 	case "delete-parent":
-		if filepath.Dir(abs) != filepath.Join(m.WS, sp.Pkg) {
+		if filepath.Dir(abs) != pkgDir {
 			os.RemoveAll(filepath.Dir(abs))
 		} else {
 			os.RemoveAll(abs)
@@ -484,7 +556,77 @@ func (w *wbuild) mutateWorkspace(m *Machine) string {
 			os.MkdirAll(filepath.Join(abs, "sub"), 0755)
 		}
 	}
-	return kind + " " + l + " " + o.Path
+}
+
+// compareTwins is the C15 oracle: mode minimal must succeed or fail exactly as mode all and
+// execute the same commands; whatever it materialises must have the same bytes.
+func (w *wbuild) compareTwins(a, b *InvResult, req BuildReq, mA, mB *Machine) {
+	if a == nil || b == nil || w.s.Aborted() {
+		return
+	}
+	report := func(class, sig, detail string) {
+		w.s.Report(simrt.Violation{Prop: "C15", Class: class, Signature: sig, Detail: fmt.Sprintf("%s %v: %s\n--- log (all)\n%s\n--- log (minimal)\n%s", req.Kind, req.Patterns, detail, tailStr(a.Log, 8), tailStr(b.Log, 10))})
+	}
+	if (a.ExitCode == 0) != (b.ExitCode == 0) {
+		report("exit-status-differs", "exit", fmt.Sprintf("load_outputs=all exited %d, load_outputs=minimal exited %d", a.ExitCode, b.ExitCode))
+		return
+	}
+	count := func(r *InvResult) map[string]int {
+		m := map[string]int{}
+		for _, e := range r.Events {
+			if e.Kind == "cmd" {
+				m[e.Label]++
+			}
+		}
+		return m
+	}
+	ca, cb := count(a), count(b)
+	var diff []string
+	for _, l := range w.U.Labels() {
+		if ca[l] != cb[l] {
+			diff = append(diff, fmt.Sprintf("%s: all=%d minimal=%d", l, ca[l], cb[l]))
+		}
+	}
+	if len(diff) > 0 && a.ExitCode == 0 {
+		report("executed-set-differs", "multiset", "commands executed differ: "+strings.Join(diff, "; "))
+	}
+	if a.ExitCode != 0 {
+		return
+	}
+	sel := w.U.Select(req, "linux/amd64")
+	for _, l := range w.U.Labels() {
+		sp := w.U.Specs[l]
+		// "materialised" = written by this build: executed here, or a direct dependency of an
+		// executed target (those must have been loaded). Outputs left over from earlier
+		// builds are not touched by a cache hit in minimal mode, by design.
+		touched := cb[l] > 0
+		for _, x := range w.U.Labels() {
+			if cb[x] > 0 {
+				for _, d := range w.U.DepTargets(w.U.Specs[x]) {
+					if d == l {
+						touched = true
+					}
+				}
+			}
+		}
+		if len(sp.Outs) == 0 || !sel.Must[l] || !touched {
+			continue
+		}
+		la, lb := diskListing(mA.WS, sp), diskListing(mB.WS, sp)
+		am := map[string]Entry{}
+		for _, e := range la {
+			am[strings.TrimPrefix(e.Path, "")] = e
+		}
+		for _, e := range lb {
+			if e.Kind == "missing" {
+				continue
+			}
+			if ae, ok := am[e.Path]; ok && ae.Kind != "missing" && ae != e {
+				report("materialised-output-differs", "bytes", fmt.Sprintf("%s: %s is {%s exec=%v %q} under minimal but {%s exec=%v %q} under all", l, e.Path, e.Kind, e.Exec, short(e.Data), ae.Kind, ae.Exec, short(ae.Data)))
+				break
+			}
+		}
+	}
 }
 
 // checkBuild compares one invocation with the reference model and updates the model.
@@ -600,16 +742,9 @@ func (w *wbuild) checkBuild(res *InvResult, req BuildReq, opts InvOpts, cm *cach
 	for k := range cm.unc {
 		unc0[k] = true
 	}
-	// an output-less dependency whose result was clobbered by a cache-disabled / no-cache
-	// execution exposes a different output hash: its dependants are left open
-	depClobbered := func(sp *Spec) bool {
-		for _, d := range u.DepTargets(sp) {
-			if len(u.Specs[d].Outs) == 0 && (unc0[ev.Strict(d)] || cm.depUnc[ev.Strict(d)] || u.Specs[d].HasTag("no-cache")) {
-				return true
-			}
-		}
-		return false
-	}
+	// (before fix 0f... a cache-disabled / no-cache execution overwrote the stored result with an
+	// output-less one; that is repaired, so such executions leave the cache model untouched)
+	depClobbered := func(sp *Spec) bool { return false }
 	type pend struct{ prop, class, sig, detail string }
 	var pendingMust []pend
 	for _, l := range order {
@@ -683,8 +818,8 @@ func (w *wbuild) checkBuild(res *InvResult, req BuildReq, opts InvOpts, cm *cach
 		if reason == "cache-disabled" || reason == "no-cache" || reason == "tainted" {
 			forcedNow[l] = true
 		}
-		if executed[l] > 1 && opts.LoadOutputs == "all" {
-			report("C03", "executed-twice", "wbuild", fmt.Sprintf("%s executed %d times in one build", l, executed[l]))
+		if executed[l] > 1 && !faulted {
+			report("C03", "executed-twice", "load_outputs="+opts.LoadOutputs, fmt.Sprintf("%s executed %d times in one build", l, executed[l]))
 		}
 		if wd, ok := wrongDeps[l]; ok {
 			// a dependency that was itself served stale is reported on that dependency (C01);
@@ -722,11 +857,6 @@ func (w *wbuild) checkBuild(res *InvResult, req BuildReq, opts InvOpts, cm *cach
 					} else {
 						delete(cm.depUnc, kS)
 					}
-				} else {
-					// a cache-disabled / no-cache execution still writes an (output-less) target
-					// result under the same key: whatever was there is clobbered, and an
-					// output-less target now has a usable result
-					cm.unc[kS] = true
 				}
 				if faulted && cm.taint[l] {
 					cm.taintUnc[l] = true // the taint removal may have been hit by the fault
